@@ -25,9 +25,25 @@ def run(rep, facts):
     sites = F.aggregates_of(facts, TOKEN)
     if len(sites) != 1:
         rep.violation("R13.1", "token-construction-sites", "Token is constructed at %d sites, expected 1" % len(sites))
-    for (b, bi, si, st) in sites:
-        g = ieg.IEG(facts, b, inline_filter=lambda body: False)
-        fr = g.root
+    for (b0, bi, si, st) in sites:
+        # a private constructor that is new relative to the pinned tree is looked through: the values are resolved in, and
+        # the suspension rule applies to, the function calling it
+        hosts = []
+        if facts.is_new_helper(b0.npath):
+            for (cb, cbi, t_, nm_) in F.calls_to(facts, lambda n, _p=b0.npath: n == _p):
+                g_ = ieg.IEG(facts, cb, inline_filter=lambda body: False)
+                frs = [f_ for f_ in g_.frames if f_.body is b0]
+                if frs:
+                    hosts.append((cb, g_, frs[0]))
+        if len(hosts) == 1:
+            b, g, fr = hosts[0]
+        elif hosts:
+            rep.violation("R13.1", "token-construction-sites", "Token's constructor is called at %d sites, expected 1" % len(hosts))
+            continue
+        else:
+            b = b0
+            g = ieg.IEG(facts, b, inline_filter=lambda body: False)
+            fr = g.root
         rv = st["rv"]
         fields = dict(zip(rv["fields"], rv["ops"]))
         loc = "%s:%d" % (st["sp"]["f"], st["sp"]["l"])
